@@ -26,6 +26,7 @@ Totality(ev) ==
 Derived(ev) == IF "calc" \in DOMAIN ev THEN CalcDiff(ev.calc, ev.bytes, 32) ELSE {}
 
 OwnerT(f) == IF f \in {"outcome", "alloc", "ops"} THEN "C01"
+             ELSE IF f = "tail_influence" THEN "C02"
              ELSE IF f \in {"csome", "chdg", "cgs", "cvrate"} THEN "C07" ELSE Owner(f)
 
 \* C04: address text round trip over all 2^24 addresses (counted by the recorder) and sample texts
@@ -37,7 +38,13 @@ Judge(i) ==
   THEN LET d == IcaoDiff(Rec[i]) IN IF d = {} THEN TRUE ELSE PrintT(<<"VERDICT", i, "icao", {<<"C04", f>> : f \in d}>>)
   ELSE
   LET ev == Rec[i]
-      d  == Diff(ev.out, ev.bytes) \cup Totality(ev) \cup Derived(ev)
+      \* C02: bytes after the frame never influence the result - an event tagged "tail" carries the frame of the event
+      \* before it followed by other bytes and must project identically
+      tail == IF i > 1 /\ "tag" \in DOMAIN ev /\ ev.tag = "tail" /\ Rec[i - 1].ev = "decode"
+                 /\ Len(Rec[i - 1].bytes) <= Len(ev.bytes) /\ SubSeq(ev.bytes, 1, Len(Rec[i - 1].bytes)) = Rec[i - 1].bytes
+                 /\ Rec[i - 1].out.ok = 1 /\ ev.out # Rec[i - 1].out
+              THEN {"tail_influence"} ELSE {}
+      d  == Diff(ev.out, ev.bytes) \cup Totality(ev) \cup Derived(ev) \cup tail
   IN IF d = {} THEN TRUE
      ELSE PrintT(<<"VERDICT", i, Class(ev.bytes), {<<OwnerT(f), f>> : f \in d}>>)
 
